@@ -175,6 +175,17 @@ func mergeValues(c *Term, a, b Value) Value {
 	if c.IsFalse() {
 		return b
 	}
+	// an unset frontend.Variable (nil interface) merged with a number: an arbitrary, unconstrained value
+	if ia, ok := a.(VIface); ok && ia.V == nil && ia.Dyn == nil && ia.NilSym == nil {
+		if _, isInt := b.(VInt); isInt {
+			a = VInt{Var("unset.frontend.Variable", SInt)}
+		}
+	}
+	if ib, ok := b.(VIface); ok && ib.V == nil && ib.Dyn == nil && ib.NilSym == nil {
+		if _, isInt := a.(VInt); isInt {
+			b = VInt{Var("unset.frontend.Variable", SInt)}
+		}
+	}
 	// frontend.Variable values: an interface holding a number and a bare number are the same thing
 	if ia, ok := a.(VIface); ok {
 		if iv, ok2 := ia.V.(VInt); ok2 {
